@@ -135,6 +135,10 @@ func (c *client) CasByVersion(ctx context.Context, record kvs.Record) (kvs.Recor
 		})
 		return err
 	}, key)
+	if err == redis.TxFailedErr {
+		// the key was changed by another writer between WATCH and EXEC
+		err = errors.ErrConflict
+	}
 	return record, err
 }
 
